@@ -215,6 +215,7 @@ struct Task {
         std::deque<InFlight *> fifo;
         int api = 0; // 0 job API, 1 burst API (may change only when the queue is empty)
         uint64_t hash = 0xabcdef;
+        uint64_t hash_user = 0xabcdef; // error code as the user reads it (imb_get_errno) after every op
         bool wrapped = false;
         int last_slot = -1;
         int next_id = 1;
@@ -1358,6 +1359,11 @@ exec_op(Ctx &c, size_t k)
         if ((p.oracles & OR_SCRUB) && t.fifo.empty() && op.kind != OP_KEYPREP && op.kind != OP_QUEUE_SIZE && op.kind != OP_GET_NEXT &&
             op.kind != OP_MISUSE && op.kind != OP_MARK)
                 residue_scan(c, t, g_callctx.name, true);
+        if (p.prop == "C17" && t.mgr.m) {
+                // what the user reads: the manager's own code, or - when that is 0 - the process-wide mirror
+                const int e = mgr_errno(t.mgr);
+                t.hash_user = mix64(t.hash_user, ((uint64_t) k << 20) ^ (uint64_t) (uint32_t) e);
+        }
 }
 
 struct NestArg {
@@ -1405,6 +1411,7 @@ run_plan(const Plan &p, const RunOpts &o)
         c.res = &res;
         c.tasks.resize(p.task_cfg.size());
         res.task_hash.resize(p.task_cfg.size());
+        res.task_hash_user.resize(p.task_cfg.size());
         g_ctx = &c;
         g_cc_violation = cc_violation;
         g_callctx.scrub = (p.oracles & OR_SCRUB) != 0;
@@ -1524,6 +1531,7 @@ run_plan(const Plan &p, const RunOpts &o)
         }
         for (size_t i = 0; i < c.tasks.size(); i++) {
                 res.task_hash[i] = c.tasks[i].hash;
+                res.task_hash_user[i] = c.tasks[i].hash_user;
                 drop_all(c, c.tasks[i]);
         }
         for (auto *st : c.streams)
